@@ -5,10 +5,10 @@
 cd /verif
 [ -z "$(git -C /repo status --short)" ] || { echo "/repo is not clean"; exit 2; }
 out=/verif/seeded/MATRIX.txt
-: > $out.tmp
+if [ -n "$SEEDS" ]; then cp $out $out.tmp; else : > $out.tmp; fi
 # the runs below rewrite evidence files with results from mutated trees: keep the real ones
 rm -rf /verif/.build/evidence.keep && cp -r /verif/evidence /verif/.build/evidence.keep
-for d in seeded/C*/; do
+for d in seeded/${SEEDS:-C*}/; do
   s=$(basename $d); prop=${s%%-*}
   base=""
   if ! git -C /repo apply --check /verif/$d/patch.diff 2>/dev/null; then
